@@ -564,8 +564,14 @@ def parabola_vertex(repo, rep):
     for r in [n for n in ast.walk(fi.node) if isinstance(n, ast.Return)]:
         if r.value is None or unparse(r.value) in ("np.nan", "numpy.nan", "float('nan')", "nan"):
             continue
-        nret += 1
         env = env_at(r)
+        rv_ = r.value
+        hops_ = 0
+        while isinstance(rv_, ast.Name) and rv_.id in env and hops_ < 5:
+            rv_, hops_ = env[rv_.id], hops_ + 1
+        if unparse(rv_) in ("np.nan", "numpy.nan", "float('nan')", "nan"):
+            continue
+        nret += 1
         try:
             got = rat_of(r.value, env)
             if not got.vars() <= ref.vars():
